@@ -282,7 +282,9 @@ let check_tokens (cfg : econfig) (ops : eop list) (tr : tok list) : unit =
        (* C14: a hook that returned an error is re-invoked: its event is not acknowledged *)
        (match u with
         | EHook st when on "C14" ->
-          if has_ack && user_err then bad "C14" "hook for state %d returned an error, yet its event was acknowledged (the hook is never re-invoked)" (zi (rs_code st))
+          if has_ack && user_err then bad "C14" "hook for state %d returned an error, yet its event was acknowledged (the hook is never re-invoked)" (zi (rs_code st));
+          if has_ack && pre_failed && not (List.exists (function TUser (UFHook _, _, _, _, UOk) -> true | _ -> false) pre) then
+            bad "C14" "the event of an entry into state %d was acknowledged although a call of the hook consumer failed before the hook was invoked (the hook is never invoked for this entry)" (zi (rs_code st))
         | _ -> ());
        (* C14: hooks only for their own state *)
        (match u, ev with
@@ -426,6 +428,24 @@ let check_tokens (cfg : econfig) (ops : eop list) (tr : tok list) : unit =
     (if on "C11" then begin
        if List.exists (function TApi z -> zi z = -3 | _ -> false) seg then bad "C11" "an adapter was called after Stop had returned";
        if List.exists (function TApi z -> zi z = -4 | _ -> false) seg then bad "C11" "a receiver or sender was still open after Stop had returned"
+     end);
+    (* C02: "a function that returns an undeclared destination changes nothing ... and the caller (Callback) or the retry loop
+       (background consumers) sees an error": the event of a step whose function returned an undeclared, non-skip destination
+       is not acknowledged; a Callback whose function did so returns an error *)
+    (if on "C02" then begin
+       let undeclared = List.exists (function
+         | TUser (fu, view, _, _, URet z) when is_step_fn fu -> not (skip_status z) && not (validate_transition g view.r_status z)
+         | _ -> false) seg in
+       if undeclared then begin
+         (match op with
+          | OStep (_, (EStep _ | EInserter _), _) ->
+            if List.exists (function TAck (_, a) -> eff a | _ -> false) seg then
+              bad "C02" "a step function returned an undeclared destination, yet its event was acknowledged: the retry loop saw no error"
+          | OCallback _ ->
+            if List.exists (function TApi z -> zi z = 0 | _ -> false) seg then
+              bad "C02" "a callback function returned an undeclared destination, yet Callback returned nil"
+          | _ -> ())
+       end
      end);
     (* C16: "the object is persisted iff a declared next status is returned with a nil error" — the IF direction, per invocation: in
        an operation without a planned fault in which no call failed, a step / callback / timeout function that returned a
